@@ -144,7 +144,7 @@ def classify_expr(e, depth=0):
         if ks == {"accept"}:
             return "accept"
         return "may"
-    if tag in ("cycle", "unknown"):
+    if tag in ("cycle", "unknown", "lazy"):
         return "may"
     return "may"
 
